@@ -238,7 +238,7 @@ impl<T: MomTropFloat> SquareMatrix<T> {
                 println!("error: {:?}", error);
             }
 
-            if error > error.from_f64(tolerance) {
+            if !(error <= error.from_f64(tolerance)) {
                 if settings.print_debug_info {
                     println!("Inversion unstable");
                 }
